@@ -77,10 +77,13 @@ def catalogue(big: bool = True) -> List[Tuple[sg.Schema, str]]:
         return T("msg", name=name, ext=ext, fields=fields)
 
     # capacities around 255/256/257 and large ones, each followed by a field
-    for k, (cap, et, ext) in enumerate([(255, u(3), False), (256, u(3), True), (257, i(5), True), (300, i(17), True),
-                                        (1000, T("byte"), False), (4096, u(1), False), (512, T("bool"), True)]):
-        out.append((build(msg("Tca", [(1, "fa", T("arr", cap=cap, ext=ext, t=et)), (2, "fb", u(7)), (3, "fc", i(9))]),
-                          f"bcap{k}"), f"boundary:cap{cap}"))
+    for k, (cap, et, ext, pad) in enumerate([
+            (255, u(3), False, 0), (256, u(3), True, 3), (257, i(5), True, 0), (300, i(17), True, 5),
+            (1000, T("byte"), False, 0), (600, T("byte"), True, 7), (300, T("byte"), True, 0), (160, T("byte"), True, 8),
+            (4096, u(1), False, 1), (512, T("bool"), True, 6), (257, i(16), False, 0), (300, u(32), True, 0),
+            (260, i(64), False, 4), (80, u(16), True, 0), (1024, u(9), True, 7), (256, i(7), False, 0)]):
+        fs = ([(1, "fp", u(pad))] if pad else []) + [(2, "fa", T("arr", cap=cap, ext=ext, t=et)), (3, "fb", u(7)), (4, "fc", i(9))]
+        out.append((build(msg("Tca", fs), f"bcap{k}"), f"boundary:cap{cap}{'x' if ext else ''}@{pad}"))
     # field numbers at 127/128/255, declared out of order
     out.append((build(msg("Tfn", [(255, "fa", u(5)), (128, "fb", i(13)), (1, "fc", T("bool")), (127, "fd", u(33)),
                                   (129, "fe", T("byte")), (254, "ff", i(64))], ext=True), "bfnum"), "boundary:fieldnumbers"))
@@ -119,6 +122,31 @@ def catalogue(big: bool = True) -> List[Tuple[sg.Schema, str]]:
     for k, ws in enumerate([(3, 5, 7, 9), (13, 19, 31, 1), (33, 31, 63, 1), (17, 15, 24, 8), (1, 63, 64, 64)]):
         fs = [(n + 1, f"f{chr(97 + n)}", (i(w) if n % 2 else u(w))) for n, w in enumerate(ws)]
         out.append((build(msg("Tsw", fs), f"bsib{k}"), f"boundary:siblings{ws}"))
+    # option max_bytes larger than / equal to the real size (BYTES_LENGTH must stay ceil(N/8))
+    for k, mb in enumerate((2, 3, 64)):
+        s_ = build(msg("Tmb", [(1, "fa", u(9)), (2, "fb", T("bool")), (3, "fc", i(3))]), f"bmaxb{k}")
+        name = f"bmaxb{k}.bitproto"
+        s_.texts[name] = s_.texts[name].replace("message Tmb {", "message Tmb {\n    option max_bytes = %d" % mb)
+        out.append((s_, f"boundary:max_bytes={mb}"))
+    # empty extensible messages as field / array element, followed by fields
+    emp = msg("Tre", [], ext=True)
+    emp2 = msg("Trf", [], ext=False)
+    out.append((build(msg("Tem", [(1, "fa", u(3)), (2, "fb", emp), (3, "fc", T("arr", cap=3, t=emp)), (4, "fd", emp2),
+                                  (5, "fe", i(13)), (6, "ff", T("arr", cap=2, ext=True, t=emp))], ext=True), "bempty"),
+                "boundary:empty-extensible"))
+    # 3-D / 4-D arrays of non-standard signed ints (and nothing else signed in the message)
+    s1 = T("alias", name="Tsa", t=T("arr", cap=2, t=i(7)))
+    s2 = T("alias", name="Tsb", t=T("arr", cap=2, t=s1))
+    s3 = T("alias", name="Tsc", t=T("arr", cap=2, t=s2))
+    out.append((build(msg("Tsi", [(1, "fa", T("arr", cap=2, t=s2)), (2, "fb", u(5))]), "bsign3"), "boundary:int7-3D"))
+    out.append((build(msg("Tsj", [(1, "fa", T("arr", cap=2, t=s3)), (2, "fb", T("bool"))]), "bsign4"), "boundary:int7-4D"))
+    if big:
+        # an extensible message of >= 32768 bits, aligned and unaligned, followed by fields
+        bigm = msg("Tbg", [(1, "fa", T("arr", cap=4100, t=T("byte"))), (2, "fb", u(5))], ext=True)
+        out.append((build(msg("Tbh", [(1, "fa", bigm), (2, "fb", u(11))]), "bbig0"), "boundary:ext-msg-32837bits-aligned"))
+        bigm2 = msg("Tbi", [(1, "fa", T("arr", cap=4100, t=T("byte"))), (2, "fb", u(5))], ext=True)
+        out.append((build(msg("Tbj", [(1, "fp", u(3)), (2, "fa", bigm2), (3, "fb", u(11))], ext=True), "bbig1"),
+                    "boundary:ext-msg-32837bits-unaligned"))
     out.append((build_chain(), "boundary:import-chain"))
     return out
 
@@ -155,5 +183,57 @@ def cases(seed: int, big: bool = True) -> List[Tuple[sg.Schema, List[Any], str]]
     out = []
     for k, (s, origin) in enumerate(catalogue(big)):
         rng = random.Random(f"boundary:{seed}:{k}")
-        out.append((s, special_values(s.top, rng), origin))
+        vals = special_values(s.top, rng)
+        if s.top.nbits() > 20000:
+            vals = vals[:1] + vals[5:6]          # large messages: two values (random, alternating bits)
+        elif s.top.nbits() > 4000:
+            vals = vals[:2] + vals[5:7]
+        out.append((s, vals, origin))
+    return out
+
+
+def evolution_chains() -> List[Tuple[List[sg.Schema], List[str], str]]:
+    """deterministic evolution chains at the edges: huge appended fields (>= 32768 bits), an empty
+    extensible placeholder that gets its first fields, capacities growing past 255 / past 1024
+    bits of payload at aligned and unaligned offsets, element message and capacity extended
+    together, three steps in a row."""
+    u, i = (lambda n: T("uint", n=n)), (lambda n: T("int", n=n))
+
+    def msg(name, fields, ext=False):
+        return T("msg", name=name, ext=ext, fields=fields)
+
+    out = []
+
+    def chain(name, versions, steps):
+        out.append(([build(v, name + str(k)) for k, v in enumerate(versions)], steps, "boundary-chain:" + name))
+
+    # A: append a huge field to a nested extensible message
+    def va(k):
+        inner = [(1, "fx", u(3)), (2, "fmid", T("arr", cap=100, t=T("byte"))), (3, "fbig", T("arr", cap=4100, t=T("byte")))][:k]
+        return msg("Tva", [(1, "fa", u(5)), (2, "fin", msg("Tvi", inner, ext=True)), (3, "ftail", u(9))], ext=True)
+    chain("huge", [va(1), va(2), va(3)], ["append byte[100]", "append byte[4100] (>= 32768 bits appended)"])
+
+    # B: an empty extensible placeholder gets its first fields
+    def vb(k):
+        fs = [(1, "fp", u(5)), (2, "fq", i(9)), (3, "fr", T("arr", cap=3, t=u(4)))][:k]
+        return msg("Tvb", [(1, "fres", msg("Tvr", fs, ext=True)), (2, "ftail", u(7)),
+                           (3, "farr", T("arr", cap=2, t=msg("Tvs", fs[:max(0, k - 1)], ext=True))), (4, "fend", i(5))])
+    chain("placeholder", [vb(0), vb(1), vb(3)], ["first field appended to an empty extensible message", "two more"])
+
+    # C: capacities growing past 255 and past 128 bytes, aligned and unaligned
+    def vc(c1, c2, c3, pad):
+        fs = ([(1, "fp", u(pad))] if pad else []) + [
+            (2, "fa", T("arr", cap=c1, ext=True, t=u(16))), (3, "fm", i(6)),
+            (4, "fb", T("arr", cap=c2, ext=True, t=T("byte"))), (5, "fn", u(3)),
+            (6, "fc", T("arr", cap=c3, ext=True, t=i(7))), (7, "ftail", u(13))]
+        return msg("Tvc", fs)
+    chain("capsal", [vc(60, 100, 200, 0), vc(80, 160, 256, 0), vc(300, 600, 1030, 0)], ["raise caps", "raise past 255"])
+    chain("capsun", [vc(60, 100, 200, 3), vc(80, 160, 257, 3), vc(300, 600, 1030, 3)], ["raise caps", "raise past 255"])
+
+    # D: element message AND capacity extended together, capacity past 255
+    def vd(cap, k):
+        fs = [(1, "fa", u(4)), (2, "fb", u(12)), (3, "fc", i(3))][:k]
+        return msg("Tvd", [(1, "fh", u(2)), (2, "fe", T("arr", cap=cap, ext=True, t=msg("Tve", fs, ext=True))),
+                           (3, "ftail", u(11))], ext=True)
+    chain("both", [vd(2, 1), vd(200, 2), vd(300, 3)], ["cap 2->200 and element +uint12", "cap ->300 and element +int3"])
     return out
